@@ -148,13 +148,13 @@ Section X.
   Notation finishR := (finishX fix_svary negotiate vary_header).
   Notation missR := (missX hstate compute true ims_on fix_ovkey fix_svary sfilter negotiate vary_tuple vary_header).
   Notation vmissR := (vary_missingX hstate compute true ims_on true fix_svary true sfilter negotiate vary_tuple vary_header).
-  Notation serveR := (serveX hstate compute true ims_on true fix_ovkey fix_svary true sfilter parse_ims sanitize_ok prime override
+  Notation serveR := (serveX hstate compute true ims_on true fix_ovkey fix_svary true true sfilter parse_ims sanitize_ok prime override
                              negotiate vary_tuple vary_header).
-  Notation stepR := (stepX hstate compute true ims_on true fix_ovkey fix_clear fix_svary true sfilter parse_ims sanitize_ok prime
+  Notation stepR := (stepX hstate compute true ims_on true fix_ovkey fix_clear fix_svary true true sfilter parse_ims sanitize_ok prime
                            override negotiate vary_tuple vary_header clear_alias).
-  Notation runR_state := (runX_state hstate compute true ims_on true fix_ovkey fix_clear fix_svary true sfilter parse_ims sanitize_ok
+  Notation runR_state := (runX_state hstate compute true ims_on true fix_ovkey fix_clear fix_svary true true sfilter parse_ims sanitize_ok
                                      prime override negotiate vary_tuple vary_header clear_alias).
-  Notation runR := (runX hstate compute true ims_on true fix_ovkey fix_clear fix_svary true sfilter parse_ims sanitize_ok
+  Notation runR := (runX hstate compute true ims_on true fix_ovkey fix_clear fix_svary true true sfilter parse_ims sanitize_ok
                          prime override negotiate vary_tuple vary_header clear_alias).
 
   Definition ims_hit (r : request) (e : entryx) : bool :=
@@ -176,7 +176,7 @@ Section X.
         (xc_insert (insert_key (if fix_ovkey then lookup_req r ov else r) (fx_fat x))
                    {| ex_vars := [mkVar (vary_tuple r ov) x now]; ex_created := now; ex_life := lifetime_x x |} c1)
   | CC_push e :
-      found = Some e -> ok && get_or_head (rq_method r) = true -> ims_hit r e = false ->
+      found = Some e -> ok && get_or_head (rq_method r) = true ->
       xv_find (vary_tuple r ov) (ex_vars e) = None ->
       may_store_x true sfilter (rq_method r) x = true -> qm_key_ok k x = true ->
       cache_change c1 now r ov ok k found x
@@ -202,7 +202,8 @@ Section X.
       - apply CC_same. }
     destruct found as [e|].
     - destruct (ok && get_or_head (rq_method r)) eqn:G.
-      + fold (ims_hit r e) in H. destruct (ims_hit r e) eqn:I.
+      + fold (ims_hit r e) in H. cbn [negb orb] in H.
+        destruct (ims_hit r e && match xv_find (vary_tuple r ov) (ex_vars e) with Some _ => true | None => false end) eqn:I.
         * inversion H; subst. cbn [fst]. apply CC_same.
         * destruct (xv_find (vary_tuple r ov) (ex_vars e)) as [v|] eqn:V.
           -- inversion H; subst. cbn [fst]. apply CC_same.
@@ -250,7 +251,7 @@ Section X.
     intros I. destruct (serveR (c, hs) now r0) as [[st' rp] lg] eqn:S. cbn [fst].
     destruct (serve_cache_update _ _ _ _ _ _ _ S) as (k & found & c1 & L & CC).
     pose proof (AdmInv_lookup _ _ _ _ _ _ L I) as I1.
-    destruct CC as [ | A _ | e Ef G Im V A Q ].
+    destruct CC as [ | A _ | e Ef G V A Q ].
     - exact I1.
     - apply AdmInv_insert; [exact I1|]. cbn [ex_vars]. intros v [<- | []]. cbn [v_resp]. eapply may_store_get; exact A.
     - apply AdmInv_insert; [exact I1|]. cbn [ex_vars]. intros v [<- | Hin].
@@ -316,7 +317,7 @@ Section X.
     intros I. destruct (serveR (c, hs) now r0) as [[st' rp] lg] eqn:S. cbn [fst].
     destruct (serve_cache_update _ _ _ _ _ _ _ S) as (k & found & c1 & L & CC).
     pose proof (LifeInv_lookup _ _ _ _ _ _ L I) as I1.
-    destruct CC as [ | A _ | e Ef G Im V A Q ].
+    destruct CC as [ | A _ | e Ef G V A Q ].
     - exact I1.
     - apply LifeInv_insert; [exact I1 | cbn; lia |]. cbn [ex_vars]. intros v [<- | []].
       unfold var_life_ok. cbn [v_stored v_resp ex_created ex_life]. split; [lia|].
@@ -448,14 +449,23 @@ Section X.
   Lemma ims_rule_x c hs now r0 k e c1 :
     let r := prime r0 in
     xlookup (lookup_req r (override r0)) c now = ((k, Some e), c1) -> sanitize_ok r0 = true -> get_or_head (rq_method r) = true ->
-    (ims_hit r e = true /\ rx_status (snd (fst (serveR (c, hs) now r0))) = 304 /\ rx_from_cache (snd (fst (serveR (c, hs) now r0))) = true /\
+    (ims_hit r e = true /\ xv_find (vary_tuple r (override r0)) (ex_vars e) <> None /\
+     rx_status (snd (fst (serveR (c, hs) now r0))) = 304 /\ rx_from_cache (snd (fst (serveR (c, hs) now r0))) = true /\
      snd (serveR (c, hs) now r0) = [] /\ rx_body (snd (fst (serveR (c, hs) now r0))) = [] /\ fst (fst (serveR (c, hs) now r0)) = (c1, hs))
-    \/ ims_hit r e = false.
+    \/
+    ((ims_hit r e = false \/ xv_find (vary_tuple r (override r0)) (ex_vars e) = None) /\
+     serveR (c, hs) now r0 =
+       match xv_find (vary_tuple r (override r0)) (ex_vars e) with
+       | Some v => ((c1, hs), finishR r (override r0) (v_resp v) ims_on true false, [])
+       | None => vmissR c1 hs now r (override r0) true k e
+       end).
   Proof.
-    intros r L Hok GH. unfold serveX. cbn [negb]. fold r. rewrite L, Hok, GH. cbn [andb]. fold (ims_hit r e).
-    destruct (ims_hit r e) eqn:E.
-    - left. cbn [fst snd rx_status rx_from_cache rx_body]. repeat split.
-    - right. reflexivity.
+    intros r L Hok GH. unfold serveX. cbn [negb orb]. fold r. rewrite L, Hok, GH. cbn [andb]. fold (ims_hit r e).
+    destruct (ims_hit r e) eqn:E; cbn [andb].
+    - destruct (xv_find (vary_tuple r (override r0)) (ex_vars e)) as [v|] eqn:V.
+      + left. cbn [fst snd rx_status rx_from_cache rx_body]. repeat split. discriminate.
+      + right. split; [right; reflexivity | reflexivity].
+    - right. split; [left; reflexivity | reflexivity].
   Qed.
 End X.
 
@@ -492,11 +502,11 @@ Section Once.
   Variable clear_alias : request -> option request.
 
   Notation finishR := (finishX fix_svary negotiate vary_header).
-  Notation serveR := (serveX hstate compute true ims_on true true fix_svary true sfilter parse_ims sanitize_ok prime override
+  Notation serveR := (serveX hstate compute true ims_on true true fix_svary true true sfilter parse_ims sanitize_ok prime override
                              negotiate vary_tuple vary_header).
-  Notation stepR := (stepX hstate compute true ims_on true true fix_clear fix_svary true sfilter parse_ims sanitize_ok prime
+  Notation stepR := (stepX hstate compute true ims_on true true fix_clear fix_svary true true sfilter parse_ims sanitize_ok prime
                            override negotiate vary_tuple vary_header clear_alias).
-  Notation runR_state := (runX_state hstate compute true ims_on true true fix_clear fix_svary true sfilter parse_ims sanitize_ok
+  Notation runR_state := (runX_state hstate compute true ims_on true true fix_clear fix_svary true true sfilter parse_ims sanitize_ok
                                      prime override negotiate vary_tuple vary_header clear_alias).
 
   (** the request whose response was stored, the response, the time it was stored and a deadline *)
@@ -553,7 +563,7 @@ Section Once.
     destruct (xlookup_cases _ _ _ _ _ _ L) as (Hk1 & _ & Hres).
     set (r1' := prime r1) in *. set (ov1 := override r1) in *. set (lr1 := lookup_req r1' ov1) in *.
     set (x1 := fst (fst (compute hs r1' ov1 (sanitize_ok r1)))) in *.
-    destruct CC as [ | A G | e1 Ef G Im V1 A Q ].
+    destruct CC as [ | A G | e1 Ef G V1 A Q ].
     - exists e. repeat split; assumption.
     - (* a new entry: under another key *)
       assert (Hnone : found = None).
@@ -656,7 +666,7 @@ Section Once.
                                           | Some v => parse_ims v | None => None end else None) with
                    | Some t0 => ims_fresh t0 (ex_created e) | None => false end) = false).
     { destruct Hims as [-> | ->]; [reflexivity | destruct ims_on; reflexivity]. }
-    rewrite Hno. destruct (xv_find t (ex_vars e)) as [v|] eqn:Vf; [|congruence].
+    rewrite Hno. cbn [andb]. destruct (xv_find t (ex_vars e)) as [v|] eqn:Vf; [|congruence].
     cbn [fst snd]. split; [reflexivity|]. split; [reflexivity|]. split.
     - unfold finishX. destruct (if is_stream (v_resp v) then None else negotiate r (v_resp v)) as [[? ?]|]; reflexivity.
     - exists v. split; [apply (xv_find_in _ _ _ Vf) | reflexivity].
@@ -737,19 +747,19 @@ Section TransparencyX.
   Hypothesis Herr : forall r ov, f_spref (fx_fat (cf r ov false)) = SP_NONE.
 
   Notation finishT := (finishX true negotiate vary_header).
-  Notation serveC := (serveX hstate compute true ims_on true true true true sfilter parse_ims sanitize_ok prime override
+  Notation serveC := (serveX hstate compute true ims_on true true true true true sfilter parse_ims sanitize_ok prime override
                              negotiate vary_tuple vary_header).
-  Notation serveU := (serveX hstate compute false ims_on true true true true sfilter parse_ims sanitize_ok prime override
+  Notation serveU := (serveX hstate compute false ims_on true true true true true sfilter parse_ims sanitize_ok prime override
                              negotiate vary_tuple vary_header).
-  Notation stepC := (stepX hstate compute true ims_on true true fix_clear true true sfilter parse_ims sanitize_ok prime
+  Notation stepC := (stepX hstate compute true ims_on true true fix_clear true true true sfilter parse_ims sanitize_ok prime
                            override negotiate vary_tuple vary_header clear_alias).
-  Notation stepU := (stepX hstate compute false ims_on true true fix_clear true true sfilter parse_ims sanitize_ok prime
+  Notation stepU := (stepX hstate compute false ims_on true true fix_clear true true true sfilter parse_ims sanitize_ok prime
                            override negotiate vary_tuple vary_header clear_alias).
-  Notation runC := (runX hstate compute true ims_on true true fix_clear true true sfilter parse_ims sanitize_ok prime
+  Notation runC := (runX hstate compute true ims_on true true fix_clear true true true sfilter parse_ims sanitize_ok prime
                          override negotiate vary_tuple vary_header clear_alias).
-  Notation runU := (runX hstate compute false ims_on true true fix_clear true true sfilter parse_ims sanitize_ok prime
+  Notation runU := (runX hstate compute false ims_on true true fix_clear true true true sfilter parse_ims sanitize_ok prime
                          override negotiate vary_tuple vary_header clear_alias).
-  Notation runC_state := (runX_state hstate compute true ims_on true true fix_clear true true sfilter parse_ims sanitize_ok prime
+  Notation runC_state := (runX_state hstate compute true ims_on true true fix_clear true true true sfilter parse_ims sanitize_ok prime
                                      override negotiate vary_tuple vary_header clear_alias).
 
   Definition key_okx (k : key) (lr : request) (x : fatx) : Prop :=
@@ -823,9 +833,9 @@ Section TransparencyX.
   Lemma cc_tinv c1 now r ov ok k found c2 :
     TInv c1 -> (ok = true \/ ok = false) ->
     (forall e, found = Some e -> xc_find k c1 = Some e /\ (k = key_pq (lookup_req r ov) \/ k = key_p (lookup_req r ov))) ->
-    cache_change ims_on true sfilter parse_ims vary_tuple c1 now r ov ok k found (cf r ov ok) c2 -> TInv c2.
+    cache_change true sfilter vary_tuple c1 now r ov ok k found (cf r ov ok) c2 -> TInv c2.
   Proof.
-    intros I Hok Hf CC. destruct CC as [ | A G | e Ef G Im V A Q ].
+    intros I Hok Hf CC. destruct CC as [ | A G | e Ef G V A Q ].
     - exact I.
     - assert (Hok' : ok = true).
       { destruct ok; [reflexivity|]. apply may_store_x_iff in A. rewrite Herr in A. tauto. }
@@ -874,7 +884,7 @@ Section TransparencyX.
                                              | Some v => parse_ims v | None => None end else None) with
                      | Some t => ims_fresh t (ex_created e) | None => false end) = false).
       { destruct Hims as [-> | Hh]; [reflexivity|]. fold r in Hh. rewrite Hh. destruct ims_on; reflexivity. }
-      rewrite Hno in H. clear Hno.
+      rewrite Hno in H. cbn [andb] in H. clear Hno.
       destruct (xv_find (vary_tuple r ov) (ex_vars e)) as [v|] eqn:V.
       + inversion H; subst. rewrite (hit_is_cf _ _ _ _ _ _ _ _ I L GH V). apply finish_equiv_x.
       + unfold vary_missingX in H. destruct (compute hs r ov true) as [[x hs'] lg'] eqn:C. apply compute_cf in C. subst x.
@@ -950,39 +960,35 @@ Section TransparencyX.
       status filter, stream, size, kvarn-cache-control: none — is recomputed by every request, whatever the cache
       holds (any state reachable by a history: [TInv] and [AdmInv] are invariants of [runX]) *)
   Lemma uncacheable_recomputed c hs now r0 :
-    TInv c -> AdmInv sfilter c -> no_imsx r0 ->
+    TInv c -> AdmInv sfilter c ->
     may_store_x true sfilter (rq_method (prime r0)) (cf (prime r0) (override r0) (sanitize_ok r0)) = false ->
     snd (serveC (c, hs) now r0) = snd (compute hs (prime r0) (override r0) (sanitize_ok r0)) /\
     snd (fst (fst (serveC (c, hs) now r0))) = snd (fst (compute hs (prime r0) (override r0) (sanitize_ok r0))).
   Proof.
-    intros I A Hims Hnot.
+    intros I A Hnot.
     set (r := prime r0) in *. set (ov := override r0) in *. set (ok := sanitize_ok r0) in *.
-    unfold serveX. cbn [negb]. fold r ov ok.
+    unfold serveX. cbn [negb orb]. fold r ov ok.
     destruct (xlookup (lookup_req r ov) c now) as [[k found] c1] eqn:L.
     destruct found as [e|]; [|apply miss_computes_x].
     destruct (ok && get_or_head (rq_method r)) eqn:G; [|apply miss_computes_x].
     apply andb_true_iff in G as [Gok GH]. rewrite Gok in *.
-    assert (Hno : (match (if ims_on then match header (B "if-modified-since") r with
-                                           | Some v => parse_ims v | None => None end else None) with
-                   | Some t => ims_fresh t (ex_created e) | None => false end) = false).
-    { destruct Hims as [-> | Hh]; [reflexivity|]. fold r in Hh. rewrite Hh. destruct ims_on; reflexivity. }
-    rewrite Hno. destruct (xv_find (vary_tuple r ov) (ex_vars e)) as [v|] eqn:V.
+    destruct (xv_find (vary_tuple r ov) (ex_vars e)) as [v|] eqn:V.
     - exfalso. pose proof (hit_is_cf _ _ _ _ _ _ _ _ I L GH V) as Ev.
       destruct (xlookup_cases _ _ _ _ _ _ L) as (_ & _ & F & _ & _). destruct (xv_find_in _ _ _ V) as [Hin _].
       pose proof (A _ _ _ F Hin) as Ad. rewrite Ev in Ad.
       rewrite (may_store_x_method true sfilter (rq_method r) M_GET) in Hnot by (rewrite GH; reflexivity). congruence.
-    - unfold vary_missingX. destruct (compute hs r ov true) as [[x hs'] lg'].
+    - rewrite andb_false_r. unfold vary_missingX. destruct (compute hs r ov true) as [[x hs'] lg'].
       destruct (may_store_x true sfilter (rq_method r) x && _); split; reflexivity.
   Qed.
 
   Lemma uncacheable_recomputed_history ops c hs now r0 :
-    TInv c -> AdmInv sfilter c -> Forall op_no_imsx ops -> no_imsx r0 ->
+    TInv c -> AdmInv sfilter c -> Forall op_no_imsx ops ->
     may_store_x true sfilter (rq_method (prime r0)) (cf (prime r0) (override r0) (sanitize_ok r0)) = false ->
     let st := runC_state (c, hs) now ops in
     snd (serveC (fst st) (snd st) r0) = snd (compute (snd (fst st)) (prime r0) (override r0) (sanitize_ok r0)) /\
     snd (fst (fst (serveC (fst st) (snd st) r0))) = snd (fst (compute (snd (fst st)) (prime r0) (override r0) (sanitize_ok r0))).
   Proof.
-    intros I A Hno Hims Hnot st.
+    intros I A Hno Hnot st.
     pose proof (run_tinv ops (c, hs) now I Hno) as I2.
     pose proof (run_adm hstate compute ims_on true fix_clear true sfilter parse_ims sanitize_ok prime override
                         negotiate vary_tuple vary_header clear_alias ops (c, hs) now A) as A2.
@@ -1007,7 +1013,7 @@ Section Histories.
   Variable vary_header : request -> option (bytes * option bytes) -> fatx -> list (bytes * bytes).
   Variable clear_alias : request -> option request.
   Notation missR := (missX hstate compute true ims_on fix_ovkey fix_svary sfilter negotiate vary_tuple vary_header).
-  Notation runR_state := (runX_state hstate compute true ims_on true fix_ovkey fix_clear fix_svary true sfilter parse_ims sanitize_ok
+  Notation runR_state := (runX_state hstate compute true ims_on true fix_ovkey fix_clear fix_svary true true sfilter parse_ims sanitize_ok
                                      prime override negotiate vary_tuple vary_header clear_alias).
 
   (** the miss arm stores exactly when admission says so, and nothing else changes in the cache *)
